@@ -33,6 +33,10 @@ pub struct Crash {
 
 #[derive(Clone, Debug, Serialize, Deserialize)]
 pub struct C04Case {
+    /// appends/imports/removes go through the HTTP API (content is streamed into the CAS by
+    /// the route itself) instead of the Store API
+    #[serde(default)]
+    pub http: bool,
     pub layout: Layout,
     pub n_ctx: u8,
     pub ops: Vec<Op>,
@@ -85,10 +89,29 @@ pub fn strategy() -> BoxedStrategy<C04Case> {
             }),
     )
         .prop_map(|(layout, n_ctx, ops, crash)| C04Case {
+            http: false,
             layout,
             n_ctx,
             ops,
             crash,
+        })
+        .prop_flat_map(|c| (Just(c), prop_oneof![3 => Just(false), 1 => Just(true)]))
+        .prop_map(|(mut c, http)| {
+            c.http = http;
+            if http {
+                // topics must be URL-safe on this path
+                for op in c.ops.iter_mut() {
+                    if let Op::Append { topic, content, .. } = op {
+                        if !crate::httpx::topic_is_url_safe(topic) || topic.is_empty() {
+                            *topic = "t".to_string();
+                        }
+                        if content.is_none() {
+                            *content = Some(Content::Bytes(b"http body".to_vec()));
+                        }
+                    }
+                }
+            }
+            c
         })
         .boxed()
 }
@@ -128,8 +151,9 @@ fn died(f: &Fail) -> bool {
 }
 
 /// Start an interpreter whose executor has the shim loaded.
-fn start(layout: Layout, log: Option<&std::path::Path>) -> Result<Interp, Fail> {
-    let mut it = Interp::start_custom(layout, false, Access::Api, |dir| shim_opts(dir, layout, log))?;
+fn start(layout: Layout, http: bool, log: Option<&std::path::Path>) -> Result<Interp, Fail> {
+    let access = if http { Access::Http } else { Access::Api };
+    let mut it = Interp::start_custom(layout, false, access, |dir| shim_opts(dir, layout, log))?;
     must("clock", it.ex().clock(Some(0)))?;
     Ok(it)
 }
@@ -142,7 +166,7 @@ fn count(it: &mut Interp) -> Result<i64, Fail> {
 
 /// Events the workload produces when nothing is killed (to map `at` onto).
 pub fn count_events(case: &C04Case) -> Result<i64, Fail> {
-    let mut it = start(case.layout, None)?;
+    let mut it = start(case.layout, case.http, None)?;
     let r = (|| {
         for _ in 0..case.n_ctx {
             it.step(&Op::Register { ttl: None })?;
@@ -168,7 +192,7 @@ pub struct CrashOutcome {
 pub fn run_crash(case: &C04Case, at: i64) -> Result<CrashOutcome, Fail> {
     let logdir = StoreDir::new();
     let log = logdir.path.join("events.log");
-    let mut it = start(case.layout, Some(&log))?;
+    let mut it = start(case.layout, case.http, Some(&log))?;
     let r = run_crash_in(case, at, &mut it, &log);
     it.finish_ref();
     r
@@ -198,8 +222,16 @@ fn run_crash_in(case: &C04Case, at: i64, it: &mut Interp, log: &std::path::Path)
                 crashed_in = Some(i);
                 break;
             }
+            // over HTTP the kill shows as a request without a response: confirm through the
+            // control channel that the process is really gone
+            Err(f) if (f.class == Class::Http || f.msg.contains("http connect")) && matches!(it.ex().call(&crate::exec::Cmd::Ping), Err(ExecErr::Died(_))) => {
+                crashed_in = Some(i);
+                break;
+            }
             Err(mut f) => {
-                f.msg = format!("before the crash, op #{i} {}: {}", op.kind(), f.msg);
+                if !f.msg.starts_with(INFRA) {
+                    f.msg = format!("before the crash, op #{i} {}: {}", op.kind(), f.msg);
+                }
                 return Err(f);
             }
         }
@@ -278,7 +310,10 @@ fn run_crash_in(case: &C04Case, at: i64, it: &mut Interp, log: &std::path::Path)
                 }
                 let w = (*w).clone();
                 // through the normal path: a head:K append queues its eviction pass
+                // (the restarted API has meanwhile appended a newer xs.start of its own)
+                let saved = it.model.last_append_id.take();
                 it.model.apply_append(spec, &w)?;
+                it.model.last_append_id = saved.max(it.model.last_append_id);
                 let mut s = want.clone();
                 s.id = Some(w.id128());
                 if s.topic == "xs.context" && s.ctx == ZERO {
@@ -438,6 +473,9 @@ fn info_for(case: &C04Case, out: &CrashOutcome) -> CaseInfo {
     }
     if case.layout == Layout::SmallMem {
         labels.push("layout-small-memtable".into());
+    }
+    if case.http {
+        labels.push("through-http-api".into());
     }
     CaseInfo {
         nontrivial: out.acked >= 1 && out.in_op,
